@@ -7,6 +7,7 @@ Import ListNotations.
 From TD Require Import Model.C20_Apply Model.C20_Sched Model.C20_Spec Model.C20_Lazy
      Proofs.C20_SpecP Proofs.C20_FrameP Proofs.C20_SchedP Proofs.C20_WitnessP
      Proofs.C20_LazyP Proofs.C20_LazyMtP Proofs.C20_RaiseP Proofs.C20_LazyWitnessP.
+From TD Require Import Model.C20_WriteBack Proofs.C20_WriteBackP.
 Open Scope string_scope.
 
 (* ------------------------------------------------------------------ apply_spec *)
@@ -349,3 +350,43 @@ Example C20_ex_keyerror :
   /\ wf_keys Z self_ex_forest = true
   /\ ref_apply Z base_opts (fn_of []) false self_ex [other_ex] None = RKey.
 Proof. exact example_keyerror. Qed.
+
+(* ================================================================== the in-place write-back (Model/C20_WriteBack.v) *)
+(* in place, at a level: under every key the stored value after the call is the value fn's result stands for — a fresh
+   tensor, fn's own argument handed back untouched, or fn's own argument updated in place and handed back — for containers
+   whose items() are the stored tensors AND for containers whose items() are copies (a _SubTensorDict under a list / tensor /
+   mask index); where fn returns None the entry holds whatever fn did to the object it was handed *)
+Theorem C20_inplace_writeback :
+  forall V copies_items (fn : string -> V -> fret V) (st : store V) k x,
+    NoDup (map fst st) -> In (k, x) st ->
+    aget V (apply_inplace V false copies_items fn st) k
+    = match fval V (fn k x) x with
+      | Some v => Some v
+      | None => match fn k x with FMutNone v => if copies_items then Some x else Some v | _ => Some x end
+      end.
+Proof. exact inplace_writeback. Qed.
+Print Assumptions C20_inplace_writeback.
+
+(* the keys of self and their order are kept, whatever fn does *)
+Theorem C20_inplace_keys :
+  forall V fast_path copies_items (fn : string -> V -> fret V) (st : store V),
+    NoDup (map fst st) -> map fst (apply_inplace V fast_path copies_items fn st) = map fst st.
+Proof. exact inplace_keys. Qed.
+Print Assumptions C20_inplace_keys.
+
+(* a fast path `if inplace and item_trsf is item: continue` changes nothing where items() hands out the stored tensors … *)
+Theorem C20_fast_path_harmless_on_views :
+  forall V (fn : string -> V -> fret V) (st : store V),
+    NoDup (map fst st) ->
+    forall k, aget V (apply_inplace V true false fn st) k = aget V (apply_inplace V false false fn st) k.
+Proof. exact fast_path_harmless_on_views. Qed.
+Print Assumptions C20_fast_path_harmless_on_views.
+
+(* … and loses fn's result where they are copies (seeded change C20-4): the variant with the fast path does not meet
+   C20_inplace_writeback — fn = lambda x: x.mul_(2) on {a: 3, b: 5}: "b" keeps 5, the code without the fast path stores 10 *)
+Example C20_inplace_writeback_fast_path_refuted :
+  exists (fn : string -> Z -> fret Z) (st : store Z) k x v,
+    NoDup (map fst st) /\ In (k, x) st /\ fval Z (fn k x) x = Some v
+    /\ aget Z (apply_inplace Z true true fn st) k = Some x /\ x <> v
+    /\ aget Z (apply_inplace Z false true fn st) k = Some v.
+Proof. exact fast_path_refuted. Qed.
